@@ -51,6 +51,8 @@ struct Ctx<'a> {
     errors: Vec<String>,
     /// (fn key, anchor key, line relative to the fn body start) of every resolved text anchor
     anchor_lines: Vec<(String, String, i64)>,
+    /// per-selector override of the derive traits that are kept (R0.derive)
+    derive_keep: Option<Vec<String>>,
     float: bool,
     macro_map: HashMap<String, String>,
     /// R9.method: method-call identifier renames (`x.extend(v)` -> `x.vx_extend(v)`), the target is a prelude stub
@@ -80,6 +82,7 @@ impl<'a> Ctx<'a> {
             seq: 0,
             errors: vec![],
             anchor_lines: vec![],
+            derive_keep: None,
             float: false,
             macro_map: HashMap::new(),
             method_map: HashMap::new(),
@@ -185,6 +188,18 @@ impl<'c, 'a> Rewriter<'c, 'a> {
             for a in args.iter() {
                 self.visit_expr(a);
             }
+            self.in_macro = saved;
+        } else if let Ok((elem, len)) = mac.parse_body_with(|input: syn::parse::ParseStream| {
+            // repeat form `vec![elem; len]`
+            let a: syn::Expr = input.parse()?;
+            input.parse::<syn::Token![;]>()?;
+            let b: syn::Expr = input.parse()?;
+            Ok((a, b))
+        }) {
+            let saved = self.in_macro;
+            self.in_macro = true;
+            self.visit_expr(&elem);
+            self.visit_expr(&len);
             self.in_macro = saved;
         }
     }
@@ -417,7 +432,12 @@ fn similarity(a: &str, b: &str) -> f64 {
 
 /// strip attributes (R0): all non-doc outer attributes are removed; derive lists are filtered.
 fn attr_edits(cx: &mut Ctx, attrs: &[syn::Attribute]) {
-    const KEEP: &[&str] = &["Clone", "Copy", "PartialEq", "Eq", "Default"];
+    const KEEP_DEFAULT: &[&str] = &["Clone", "Copy", "PartialEq", "Eq", "Default"];
+    let keep_owned: Vec<String> = match &cx.derive_keep {
+        Some(k) => k.clone(),
+        None => KEEP_DEFAULT.iter().map(|s| s.to_string()).collect(),
+    };
+    let KEEP: Vec<&str> = keep_owned.iter().map(|s| s.as_str()).collect();
     for a in attrs {
         if a.path().is_ident("doc") || a.path().is_ident("default") {
             continue;
@@ -611,6 +631,46 @@ struct FnInfo<'x> {
     sig: Option<&'x syn::Signature>,
     block: Option<&'x syn::Block>,
     span: Span,
+}
+
+/// R7.impltrait: `fn f<G>(x: &impl Tr<M>)` -> `fn f<G, VxImpl0: Tr<M>>(x: &VxImpl0)` (DESIGN §2.2 R7).
+/// Semantically the identity (argument-position `impl Trait` *is* an anonymous type parameter);
+/// Verus generates ill-typed AIR for the anonymous form in trait-method contracts.
+fn impl_trait_arg_edits(cx: &mut Ctx, sig: &syn::Signature) {
+    struct V<'x> {
+        found: Vec<&'x syn::TypeImplTrait>,
+    }
+    impl<'ast> Visit<'ast> for V<'ast> {
+        fn visit_type_impl_trait(&mut self, t: &'ast syn::TypeImplTrait) {
+            self.found.push(t);
+        }
+    }
+    let mut v = V { found: vec![] };
+    for inp in sig.inputs.iter() {
+        v.visit_fn_arg(inp);
+    }
+    if v.found.is_empty() {
+        return;
+    }
+    let mut decls: Vec<String> = vec![];
+    for (k, t) in v.found.iter().enumerate() {
+        let name = format!("VxImpl{}", k);
+        let (a, b) = cx.range(t.span());
+        let bounds = cx.text(t.bounds.span()).to_string();
+        decls.push(format!("{}: {}", name, bounds));
+        cx.push(a, b, name, "R7.impltrait");
+    }
+    match (&sig.generics.lt_token, &sig.generics.gt_token) {
+        (Some(_), Some(gt)) => {
+            let (gs, _) = cx.range(gt.span());
+            let sep = if sig.generics.params.is_empty() || sig.generics.params.trailing_punct() { "" } else { ", " };
+            cx.push(gs, gs, format!("{}{}", sep, decls.join(", ")), "R7.impltrait.generics");
+        }
+        _ => {
+            let (_, ie) = cx.range(sig.ident.span());
+            cx.push(ie, ie, format!("<{}>", decls.join(", ")), "R7.impltrait.generics");
+        }
+    }
 }
 
 fn apply_contract(cx: &mut Ctx, f: &FnInfo, contract: Option<&Value>, mutself: bool) {
@@ -816,6 +876,58 @@ fn apply_contract(cx: &mut Ctx, f: &FnInfo, contract: Option<&Value>, mutself: b
     }
 }
 
+/// R1.closure (rules.closure_specs: {"<fn key>": [{"index": k, "types": ["T0", ..], "ret": "(q: T)", "spec": "ensures .."}]}):
+/// contract of the k-th closure (source order) of a function. Inserts `: Ti` after the i-th untyped
+/// parameter pattern and ` -> ret spec ` between the parameter list and the body. Nothing executable
+/// changes: a type ascription and a Verus closure contract (Verus knows nothing about the result of an
+/// unannotated closure).
+fn apply_closure_specs(cx: &mut Ctx, f: &FnInfo, specs: Option<&Value>) {
+    let (block, specs) = match (f.block, specs.and_then(|v| v.as_array())) {
+        (Some(b), Some(s)) => (b, s),
+        _ => return,
+    };
+    struct ClosureFinder<'q> { found: Vec<&'q syn::ExprClosure> }
+    impl<'ast> Visit<'ast> for ClosureFinder<'ast> {
+        fn visit_expr_closure(&mut self, e: &'ast syn::ExprClosure) {
+            self.found.push(e);
+            visit::visit_expr_closure(self, e);
+        }
+        fn visit_item(&mut self, _i: &'ast syn::Item) {}
+    }
+    let mut cf = ClosureFinder { found: vec![] };
+    cf.visit_block(block);
+    for s in specs {
+        let idx = s["index"].as_u64().unwrap_or(0) as usize;
+        let c = match cf.found.get(idx) {
+            Some(c) => *c,
+            None => {
+                cx.errors.push(format!("ANCHOR-LOST {}: closure ordinal {} not found ({} closures)", f.key, idx, cf.found.len()));
+                continue;
+            }
+        };
+        let types: Vec<String> = s["types"].as_array().map(|a| a.iter().filter_map(|v| v.as_str().map(String::from)).collect()).unwrap_or_default();
+        if types.len() != c.inputs.len() {
+            cx.errors.push(format!("ANCHOR-LOST {}: closure {} has {} parameters, contract names {}", f.key, idx, c.inputs.len(), types.len()));
+            continue;
+        }
+        for (p, t) in c.inputs.iter().zip(types.iter()) {
+            if let syn::Pat::Type(_) = p {
+                continue; // already typed in the source
+            }
+            let (_, pe) = cx.range(p.span());
+            cx.push(pe, pe, format!(": {}", t), "R1.closure.type");
+        }
+        if !matches!(c.output, syn::ReturnType::Default) {
+            cx.errors.push(format!("{}: closure {} already has a return type", f.key, idx));
+            continue;
+        }
+        let (bs, _) = cx.range(c.body.span());
+        let ret = s["ret"].as_str().unwrap_or("");
+        let spec = s["spec"].as_str().unwrap_or("");
+        cx.push(bs, bs, format!("-> {}\n{}\n", ret, spec), "R1.closure");
+    }
+}
+
 fn type_last_ident(ty: &syn::Type) -> String {
     match ty {
         syn::Type::Path(p) => p
@@ -946,6 +1058,11 @@ fn main() {
         .map(|a| a.iter().filter_map(|v| v.as_str().map(String::from)).collect())
         .unwrap_or_default();
     let forrange: HashSet<String> = rules["forrange"]
+        .as_array()
+        .map(|a| a.iter().filter_map(|v| v.as_str().map(String::from)).collect())
+        .unwrap_or_default();
+    // R7.impltrait (rules.impl_trait_args: [keys]): argument-position `impl Trait` -> named type parameter
+    let impl_trait_args: HashSet<String> = rules["impl_trait_args"]
         .as_array()
         .map(|a| a.iter().filter_map(|v| v.as_str().map(String::from)).collect())
         .unwrap_or_default();
@@ -1198,6 +1315,7 @@ fn main() {
                 continue;
             }
             let it = found[nth];
+            cx.derive_keep = sel["derive_keep"].as_array().map(|a| a.iter().filter_map(|v| v.as_str().map(String::from)).collect());
             let (istart, iend) = cx.range(it.span());
             // R0 attributes
             {
@@ -1330,6 +1448,10 @@ fn main() {
                             }
                         }
                     }
+                    if let Some(x) = sel["extra"].as_str() {
+                        let (_, be) = cx.range(t.brace_token.span.open());
+                        cx.push(be, be, format!("\n{}\n", x), "R1.ghostitems");
+                    }
                     if let Some(h) = sel["header"].as_str() {
                         let (bs, _) = cx.range(t.brace_token.span.open());
                         let hs = cx.range(t.span()).0;
@@ -1352,6 +1474,12 @@ fn main() {
                     used_contracts.insert(f.key.clone());
                 }
                 apply_contract(&mut cx, f, c, mutself.contains(&f.key));
+                if impl_trait_args.contains(&f.key) {
+                    if let Some(sig) = f.sig {
+                        impl_trait_arg_edits(&mut cx, sig);
+                    }
+                }
+                apply_closure_specs(&mut cx, f, rules["closure_specs"].get(&f.key));
                 let (a, b) = cx.range(f.span);
                 fn_meta.push(json!({
                     "key": f.key,
@@ -1410,6 +1538,28 @@ fn main() {
                         let b = boolops.contains(&f.sig.ident.to_string());
                         let mut rw = Rewriter { cx: &mut cx, boolops: b, in_macro: false };
                         rw.visit_item_fn(f);
+                    }
+                    syn::Item::Const(c)
+                        if cx.float
+                            && matches!(&*c.ty, syn::Type::Path(p) if p.path.is_ident("f64"))
+                            && matches!(&*c.expr, syn::Expr::Lit(l) if matches!(l.lit, syn::Lit::Float(_)))
+                            && float_lit_to_real(cx.text(c.expr.span())).is_some() =>
+                    {
+                        // R2.const: `const N: f64 = <float literal>;` ->
+                        // `exec const N: F ensures N.r() == <real> { F { v: Ghost(<real>) } }`
+                        // (rustc evaluates const initialisers at compile time, so the non-const
+                        // constructor `F::lit` of the ordinary R2.lit rewrite cannot be used here)
+                        let r = float_lit_to_real(cx.text(c.expr.span())).unwrap();
+                        {
+                            let mut rw = Rewriter { cx: &mut cx, boolops: false, in_macro: false };
+                            rw.visit_type(&c.ty);
+                        }
+                        let (cs, _) = cx.range(c.const_token.span());
+                        cx.push(cs, cs, "exec ", "R2.const");
+                        let (es, _) = cx.range(c.eq_token.span());
+                        let (_, se) = cx.range(c.semi_token.span());
+                        let n = c.ident.to_string();
+                        cx.push(es, se, format!("ensures {n}.r() == {r}real {{ F {{ v: Ghost({r}real) }} }}"), "R2.const");
                     }
                     other => {
                         let mut rw = Rewriter { cx: &mut cx, boolops: false, in_macro: false };
